@@ -44,13 +44,19 @@ def shortest(nodes, edges):
     return dist
 
 
-def chain_of(links, src, dst, edges):
-    """Decompose an observed link list into a chain of declared one-hop routes src -> ... -> dst.
-    Returns the list of hops [(a,b),...] or None."""
+def adjacency(edges):
+    """node -> [(next node, link list)] for the declared one-hop routes (self routes left out)."""
     out = {}
     for (a, b), l in edges.items():
         if a != b:
             out.setdefault(a, []).append((b, l))
+    return out
+
+
+def chain_of(links, src, dst, edges, adj=None):
+    """Decompose an observed link list into a chain of declared one-hop routes src -> ... -> dst.
+    Returns the list of hops [(a,b),...] or None. adj = adjacency(edges) may be passed to avoid rebuilding it."""
+    out = adjacency(edges) if adj is None else adj
     seen = set()
 
     def rec(node, pos):
